@@ -20,6 +20,7 @@ func checkC07(c *Ctx) {
 	c.Rule("C07.R2", "row mapping agreement: every INSERT binds payload/headers_json/trace_json/id/route/target to the envelope's fields and every SELECT/RETURNING scans those columns back into the same fields")
 	c.Rule("C07.R3", "header strip set: the ingress header copier never stores authorization/proxy-authorization/cookie, canonicalises names and comma-joins values")
 	c.Rule("C07.R4", "no in-place mutation of accepted bytes: no store through an element of a []byte parameter in package ingress (authenticators do not write the body)")
+	c.Rule("C07.R5", "the received header map is read-only in package ingress: no Header.Set/Add/Del or map update on the inbound request's Header, directly or through a holder it was stored into by reference (authenticators run before the envelope headers are copied)")
 
 	// ---- R1 ----
 	serve := p.Func("ingress", "(*Server).ServeHTTP")
@@ -174,6 +175,7 @@ func checkC07(c *Ctx) {
 	}
 	c.Count("C07.R4.stores_examined", nStores)
 	c.Check(nBad == 0 && nStores > 20, "C07.R4", "ingress:no-write-into-byte-parameters", "", fmt.Sprintf("%d store instructions examined, none writes through a []byte parameter", nStores), "see findings")
+	checkInboundHeadersReadOnly(c, "C07.R5")
 }
 
 func checkRowMapping(c *Ctx, rule string) {
